@@ -105,12 +105,9 @@ def Discharge.basis : Discharge → Basis
 /-- kept for the evidence: reasons that rest on anything but a lemma or a mechanical fact -/
 def Discharge.byReading (d : Discharge) : Bool := d.basis == .trusted
 
-/-- length of `secrets.token_urlsafe(n)`: unpadded base64 of n bytes -/
-def tokenUrlsafeLen (n : Nat) : Nat := (4 * n + 2) / 3
-
 /-- The premise about the CODE that a reason needs, as a test on the regenerated fact of its site. -/
 def Discharge.supportedBy : Discharge → Fact → Bool
-  | .fixedLenSecret, .constSecret _ => true
+  | .fixedLenSecret, .constSecret n => tokenUrlsafeLen n == 32      -- the ICMP payload: 24 bytes, 32 characters
   | .fixedLenSecret, _ => false
   | .clockNotRead, .sinks l => l.all fun s => s == "path" || s == "show" || s == "log"
   | .clockNotRead, _ => false
